@@ -779,7 +779,7 @@ fn gen_shape(rng: &mut Rng, pool_sizes: &[u64], base_of: &mut dyn FnMut(u8, u32,
 /// largest cost an unknown operator may have), and the same lists with the first argument one byte
 /// shorter / longer.  The base must be a divisor of 2^32 − 1 = 3·5·17·257·65537, so probing
 /// ⌊(2^32−1)/base⌋ for arbitrary bases never lands on the limit itself.
-fn exact_limit_cases() -> Vec<(Vec<u8>, u32, Vec<u64>)> {
+pub fn exact_limit_cases() -> Vec<(Vec<u8>, u32, Vec<u64>)> {
     let primes = [3u128, 5, 17, 257, 65537];
     let mut divisors = vec![];
     for mask in 0..32u32 {
